@@ -9,6 +9,7 @@ error of the run, not a violation.
 import collections
 import itertools
 import random
+import re
 
 
 def closed_problems(g, max_succ=2):
@@ -425,9 +426,31 @@ def relabel(g, rng, mode):
                 new.append(s)
     elif mode == "namespace":
         pool = _NS_NAMES[:]
+        c = rng.random()
+        if c < 0.3:
+            # several names of ONE kind whose indices meet a counter value or
+            # mix one and two digits ('9' sorts after '10' as text)
+            base = rng.choice(_NS_NAMES)
+            idxs = rng.choice([(9, 10), (10, 9), (2, 10), (99, 100), (9, 10, 11), (0, 1, 2),
+                               (1, 0, 2), (2, 1, 0), (1,), (7,), (10,)])
+            pool = [re.sub(r"_[01](__)?$", lambda m: f"_{i}" + (m.group(1) or ""), base)
+                    for i in idxs]
+            new = [f"q{i}" for i in range(len(names))]
+            for pos, nm in zip(sorted(rng.sample(range(len(names)), min(len(pool), len(names)))),
+                               pool):
+                new[pos] = nm
+            m = dict(zip(names, new))
+            return {m[k]: tuple(m[t] for t in v) for k, v in g.items()}
+        if c < 0.6:
+            # indices beyond the generator's first picks: equal to / next to a
+            # counter value, one and two digits mixed ('9' sorts after '10')
+            pool = [re.sub(r"_0(__)?$", lambda m: f"_{i}" + (m.group(1) or ""), nm)
+                    for nm in _NS_NAMES[::2] + _NS_NAMES[1::2]
+                    for i in rng.sample([0, 1, 2, 3, 9, 10, 11, 12, 99, 100], 3)]
+            pool = list(dict.fromkeys(pool))
         rng.shuffle(pool)
         new = [f"q{i}" for i in range(len(names))]
-        k = rng.randint(1, min(3, len(names)))
+        k = rng.randint(1, min(4, len(names)))
         for pos, nm in zip(rng.sample(range(len(names)), k), pool):
             new[pos] = nm
     else:
